@@ -60,13 +60,15 @@ type batchScn struct {
 	execVia  int  // which sibling route installs the exec function (viaBuilderR = default)
 	noPost   bool // no post function configured
 	// special behaviours
-	park    []int      // items that park (scheduler-visible) until a terminal failure has been handled
-	barrier []int      // items that block until all of them have arrived (C08 usability)
-	fast    []int      // items whose exec does not take execDur (they finish while the others are still running)
-	stagger bool       // item i takes (i+1)*execDur
-	unwrap  bool       // hand flyt the *BatchNode inside the builder instead of the builder
-	nByRun  []int      // item count of each run (repeated runs of one node object); default n
-	cancel  cancelSpec // cancellation injection
+	park          []int      // items that park (scheduler-visible) until a terminal failure has been handled
+	barrier       []int      // items that block until all of them have arrived (C08 usability)
+	fast          []int      // items whose exec does not take execDur (they finish while the others are still running)
+	stagger       bool       // item i takes (i+1)*execDur
+	unwrap        bool       // hand flyt the *BatchNode inside the builder instead of the builder
+	nByRun        []int      // item count of each run (repeated runs of one node object); default n
+	cancelFromRun int        // the cancel spec applies to runs with at least this index (earlier runs are not cancelled)
+	feedback      bool       // repeated runs: the result slice post received becomes, AS IT IS, the items of the next run
+	cancel        cancelSpec // cancellation injection
 	// oracle groups
 	chkPositional, chkPerItem, chkLimit, chkStop, chkCancel, chkAction, chkWait bool
 	inFlow                                                                      bool                                                        // run as the first node of a flow whose default edge leads to a witness
@@ -151,6 +153,9 @@ func (b *BR) index(v any) int {
 	}
 	switch x := v.(type) {
 	case int:
+		if x >= 1000 {
+			return x % 1000 // a fed-back result of an earlier run
+		}
 		return x - 100
 	case itemT:
 		return x.ID
@@ -196,9 +201,10 @@ func okVal(i int) any { return 1000 + i } // tag(item)
 // brHolder: the node object and its callbacks outlive a single run; the callbacks
 // report to whichever run is current.
 type brHolder struct {
-	cur   *BR
-	nb    *flyt.BatchNodeBuilder
-	store *flyt.SharedStore
+	prevResults []flyt.Result // feedback mode: what post received in the previous run
+	cur         *BR
+	nb          *flyt.BatchNodeBuilder
+	store       *flyt.SharedStore
 }
 
 func (sc *batchScn) scenario() Scenario {
@@ -219,6 +225,11 @@ func (sc *batchScn) scenario() Scenario {
 				scr = &cp
 			}
 			b = &BR{sc: scr, h: h, runIdx: r, payload: scr.payloads(), it: make([]itemState, scr.n), afterCancel: map[int]int{}}
+			if sc.feedback && r > 0 {
+				for i := range b.payload {
+					b.payload[i] = 1000*r + i // = what run r-1 produced for item i
+				}
+			}
 			h.cur = b
 			if r > 0 && sc.reconf != nil {
 				stop, c = sc.reconf(h.nb, r)
@@ -271,7 +282,7 @@ func (b *BR) run() {
 		c, _ := core.WithDeadline(context.Background(), core.Now().Add(sc.deadline))
 		ctx = c
 	}
-	if sc.cancel.kind != 0 {
+	if sc.cancel.kind != 0 && b.runIdx >= sc.cancelFromRun {
 		var parent context.Context = context.Background()
 		if sc.withCause {
 			// a standard cancel-with-cause context as parent: context.Cause(ctx) then differs from ctx.Err()
@@ -354,6 +365,9 @@ func (b *BR) buildNode() (*flyt.BatchNodeBuilder, *flyt.SharedStore) {
 	}
 	store := flyt.NewSharedStore()
 	prepItems := func() []flyt.Result {
+		if sc.feedback && h.cur.runIdx > 0 && h.prevResults != nil {
+			return h.prevResults // the very slice the previous run handed to post
+		}
 		r := make([]flyt.Result, len(h.cur.payload))
 		for i, p := range h.cur.payload {
 			r[i] = flyt.NewResult(p)
@@ -600,6 +614,9 @@ func (b *BR) onExec(ctx context.Context, v any, argIsErr bool) answer {
 	}
 	m := sc.execMenu(i, k)
 	a := m[core.Choose(len(m))]
+	if sc.feedback && a.err == nil && a.val == okVal(i) {
+		a.val = 1000*(b.runIdx+1) + i // every run produces its own values: results never equal the items
+	}
 	st.answers = append(st.answers, a)
 	b.inflight.Set(b.inflight.Get() - 1)
 	st.endT = append(st.endT, core.VNow())
@@ -717,6 +734,7 @@ func (b *BR) onPost(sameStore bool, items, results []flyt.Result) (flyt.Action, 
 		}
 	}
 	b.checkSlots(results)
+	b.h.prevResults = results
 	b.lastCbEnd = core.VNow()
 	a := sc.postMenu[core.Choose(len(sc.postMenu))]
 	b.postAnswer = &a
@@ -831,6 +849,11 @@ func (b *BR) finalChecks() {
 		}
 		return
 	}
+	if b.postAnswer != nil && b.postAnswer.err != nil {
+		if b.err == nil || !errors.Is(b.err, b.postAnswer.err) {
+			core.Problem("post failed with %v but the batch run returned (%q, %v)", b.postAnswer.err, b.action, b.err)
+		}
+	}
 	cancelled := b.cancelled.Get() != 0
 	if sc.chkPositional && !cancelled {
 		if b.postCalls != 1 && !sc.noPost {
@@ -845,6 +868,22 @@ func (b *BR) finalChecks() {
 			if sc.noPost {
 				b.checkItemScript(i, &b.it[i])
 			}
+		}
+	}
+	if b.stop && !cancelled && (sc.chkPositional || sc.chkStop || sc.chkPerItem) && b.postCalls > 0 {
+		// stop-on-error skips items only because an item of THIS run has failed
+		failed, skipped := false, -1
+		for i := range b.it {
+			ran, _, err, _ := b.expectedSlot(i)
+			if ran && err != nil {
+				failed = true
+			}
+			if !ran && skipped < 0 {
+				skipped = i
+			}
+		}
+		if skipped >= 0 && !failed {
+			core.Problem("stop-on-error: item %d was not executed although no item of this run failed", skipped)
 		}
 	}
 	if sc.chkStop && b.stop && b.c <= 1 {
@@ -862,7 +901,8 @@ func (b *BR) finalChecks() {
 	}
 	if sc.chkCancel && cancelled {
 		if b.err != nil {
-			if !errors.Is(b.err, b.ctxErr) {
+			postFailed := b.postAnswer != nil && b.postAnswer.err != nil && errors.Is(b.err, b.postAnswer.err)
+			if !errors.Is(b.err, b.ctxErr) && !postFailed { // (a post that itself fails ends the run with ITS error)
 				core.Problem("cancelled batch returned error %q which does not match the context's error", b.err)
 			}
 		} else {
